@@ -1,9 +1,56 @@
 import Pandora.Drv.Util
+import Pandora.Spec.C03
 
 namespace Pandora.Drv.C03
-open Pandora.Drv
+open Pandora.Drv Pandora.Model.C03 Pandora.Spec.C03
 
-/-- stub: replaced when the property's model driver is written -/
-def handle : Handler := fun _ _ => ("-", "skip:not-built")
+def parseEv (s : String) : Option Ev :=
+  match s.toList with
+  | 'c' :: r => match (String.ofList r).splitOn ":" with
+      | [i, l] => do pure (.chk (← i.toNat?) (← l.toNat?))
+      | _ => none
+  | 'a' :: r => (String.ofList r).toNat?.map .acq
+  | 'e' :: r => (String.ofList r).toNat?.map .empty
+  | 'n' :: r => (String.ofList r).toNat?.map .tokOk
+  | 'x' :: r => (String.ofList r).toNat?.map .tokEnd
+  | 's' :: r => (String.ofList r).toNat?.map .shoot
+  | 'd' :: r => (String.ofList r).toNat?.map .discard
+  | 'r' :: r => (String.ofList r).toNat?.map .rel
+  | _ => none
+
+/-- replay; returns the state or the index and text of the first event that is not enabled -/
+def replay (c : Cfg) : St → List (Ev × String) → Nat → Except String St
+  | s, [], _ => .ok s
+  | s, (e, txt) :: es, k => match step c s e with
+    | some s' => replay c s' es (k + 1)
+    | none => .error s!"rejected@{k}:{txt}"
+
+def handle : Handler := fun input impl =>
+  let kv := parseKV input
+  let o := parseKV impl
+  let started := (getN? o "started").getD 0
+  let ammo : Option Nat := match getI? kv "ammo" with
+    | some a => if a < 0 then none else some a.toNat
+    | none => none
+  let c : Cfg := { perInstance := getS kv "shared" == "0", tokens := (getN? o "exact").getD 0, ammo := ammo,
+                   discardOn := getS kv "discard" == "1", instances := started }
+  let evTxt := splitList (getS o "log")
+  match evTxt.mapM (fun t => (parseEv t).map (·, t)) with
+  | none => ("-", s!"fail:crash:unparsable observation {impl.take 80}")
+  | some evs =>
+    if getS o "res" != "ok" then ("-", s!"fail:abnormal-end:{getS o "res"}") else
+    let cnt (p : Ev → Bool) := (evs.filter (fun e => p e.1)).length
+    let k : Counters := {
+      fired := cnt (fun | .shoot _ => true | _ => false), discarded := cnt (fun | .discard _ => true | _ => false),
+      acquired := cnt (fun | .acq _ => true | _ => false), released := cnt (fun | .rel _ => true | _ => false),
+      request := (getN? o "req").getD 0, response := (getN? o "resp").getD 0,
+      usedAfterRelease := getS o "uar" != "0", doubleRelease := getS o "dbl" != "0" }
+    let v := verdict c k
+    match replay c (init c) evs 0 with
+    | .error e => (e, v)
+    | .ok s =>
+      if !s.terminal then ("not-terminal", v)
+      else if s.fired != k.fired || s.discarded != k.discarded || s.request != k.request then ("counter-mismatch", v)
+      else (impl, v)
 
 end Pandora.Drv.C03
